@@ -1046,6 +1046,10 @@ class FunctionLowerer:
             return "{%d, {%s}}" % (len(elems), ", ".join(self.const_init(e, ect) for e in elems))
         if k == "StringLiteral" and ct == self.T.STR:
             return self.u.sid_literal(n["value"]) if ct == "sid" else "%s_INIT(%s)" % (self.T.STR.upper(), n["value"])
+        if k == "CallExpr":
+            cal = _strip_casts(n["inner"][0])
+            if (cal.get("referencedDecl") or {}).get("name") in ("max", "min", "epsilon", "lowest", "infinity") and len(n["inner"]) == 1:
+                return self.expr(n)     # std::numeric_limits<T>::f(): a constant macro
         if k in ("IntegerLiteral", "FloatingLiteral", "CharacterLiteral", "CXXBoolLiteralExpr", "UnaryOperator",
                  "ImplicitCastExpr", "DeclRefExpr", "BinaryOperator", "CStyleCastExpr", "CXXStaticCastExpr",
                  "CXXFunctionalCastExpr"):
@@ -1328,6 +1332,10 @@ class FunctionLowerer:
             cn = self.u.cname_for(d)
             self.note_call(cn)
             self.ensure_proto(d, cn)
+            if cn == self.cname and cn in self.u.rec_stubs:
+                # the recursive call is the function's own contract (induction on depth)
+                self.u.protos[cn + "__rec"] = self.u.protos[cn].split("\n")[0].replace(cn + "(", cn + "__rec(") + ";"
+                cn = cn + "__rec"
             return "%s(%s)" % (cn, ", ".join(self.call_args(d, args)))
         return self.std_call(n, name, args)
 
